@@ -144,6 +144,13 @@ class CallsMixin:
         sr = z3.simplify(Z.is_cls(recv))
         if z3.is_true(sr):
             raise Unsupported("call through class value " + ast.unparse(node), node)
+        if self.spec:
+            # spec mode is total: dispatch on the method name
+            if name in ('startswith', 'endswith', 'lower', 'strip', 'replace', 'format', 'join'):
+                return self.str_method(node, st, recv, name)
+            if name in ('get',):
+                return self.dict_method(node, st, recv, name)
+            raise Unsupported("method %s in specification" % name, node)
         if self.known(st, Z.is_s(recv)):
             return self.str_method(node, st, recv, name)
         if self.known(st, self.is_kind(st, recv, Z.K_LIST)):
@@ -207,16 +214,28 @@ class CallsMixin:
                 for a in args:
                     s, a = self.materialize(s, a)
                     args2.append(a)
+                lit = z3.simplify(sv)
+                minlen = None
+                if z3.is_string_value(lit):
+                    # A6: every '{}' / '{name}' field is replaced by some (possibly empty) text; literal text stays
+                    import string as _string
+                    try:
+                        parts = list(_string.Formatter().parse(lit.as_string()))
+                        minlen = sum(len(p[0]) for p in parts)
+                    except Exception:
+                        minlen = None
+                def _fmt(term):
+                    return s.assume(z3.Length(term) >= minlen) if minlen else s
                 if len(args2) == 0:
                     outs.append((s, recv))
                 elif len(args2) == 1:
-                    outs.append((s, Z.mk_s(Z.FORMAT1(sv, args2[0]))))
+                    t = Z.FORMAT1(sv, args2[0]); outs.append((_fmt(t), Z.mk_s(t)))
                 elif len(args2) == 2:
-                    outs.append((s, Z.mk_s(Z.FORMAT2(sv, args2[0], args2[1]))))
+                    t = Z.FORMAT2(sv, args2[0], args2[1]); outs.append((_fmt(t), Z.mk_s(t)))
                 elif len(args2) == 3:
-                    outs.append((s, Z.mk_s(Z.FORMAT3(sv, args2[0], args2[1], args2[2]))))
+                    t = Z.FORMAT3(sv, args2[0], args2[1], args2[2]); outs.append((_fmt(t), Z.mk_s(t)))
                 else:
-                    outs.append((s, Z.mk_s(Z.fresh('formatted', S))))
+                    t = Z.fresh('formatted', S); outs.append((_fmt(t), Z.mk_s(t)))
             elif name == 'replace' and len(pos) == 2:
                 self.used_assumptions.add('A6')
                 s2 = self.guard(s, z3.And(Z.is_s(pos[0]), Z.is_s(pos[1])), 'TypeError', 'replace args')
@@ -736,50 +755,80 @@ class CallsMixin:
             self.spec -= 1
         return self.truth(s, v)
 
-    def modset_pred(self, mods, st, env):
-        """membership predicate (as Python function Int term -> Bool) of a modifies clause, evaluated in st"""
-        if not mods:
-            return lambda a: z3.BoolVal(False)
-        preds = []
-        for m in mods:
+    def modset(self, mods, st, env):
+        """denotation of a modifies clause in state st: (list of ref Vals, list of (arr, n) element sets)"""
+        refs, sets = [], []
+        for m in (mods or []):
             tree = ast.parse(m.strip(), mode='eval').body
-            if isinstance(tree, ast.Call) and isinstance(tree.func, ast.Name) and tree.func.id == 'elems':
-                self.spec += 1
-                try:
-                    lst = self.ev1(tree.args[0], st.clone(env=env))
-                finally:
-                    self.spec -= 1
-                la = Z.addr(lst)
-                arr = st.heap.elems(la)
-                n = st.heap.len_of(la)
-
-                def p(a, arr=arr, n=n):
-                    j = z3.Int('j!mod')
-                    return z3.Exists([j], z3.And(j >= 0, j < n, Z.is_ref(z3.Select(arr, j)), Z.addr(z3.Select(arr, j)) == a))
-                preds.append(p)
-            elif isinstance(tree, ast.Constant) and tree.value in ('nothing', None):
+            if isinstance(tree, ast.Constant) and tree.value in ('nothing', None):
                 continue
-            else:
-                self.spec += 1
-                try:
-                    v = self.ev1(tree, st.clone(env=env))
-                finally:
-                    self.spec -= 1
-                preds.append(lambda a, v=v: z3.And(Z.is_ref(v), Z.addr(v) == a))
-        return lambda a: z3.Or([p(a) for p in preds]) if preds else z3.BoolVal(False)
+            self.spec += 1
+            try:
+                if isinstance(tree, ast.Call) and isinstance(tree.func, ast.Name) and tree.func.id == 'elems':
+                    lst = self.ev1(tree.args[0], st.clone(env=env))
+                    la = Z.addr(lst)
+                    sets.append((st.heap.elems(la), st.heap.len_of(la), lst))
+                else:
+                    refs.append(self.ev1(tree, st.clone(env=env)))
+            finally:
+                self.spec -= 1
+        return refs, sets
 
-    def havoc_heap(self, st, inmod):
-        """new heap that agrees with st.heap on every address < alloc outside the modifies set"""
+    def modset_pred(self, mods, st, env):
+        """membership predicate (Python function Int term -> Bool) of a modifies clause evaluated in st:
+        a in elems(L)  <=>  exists j in [0,n). is_ref(L[j]) and addr(L[j]) = a.
+        (In the frame axioms this occurs negatively; E-matching handles it by skolemising the witness.
+        A ghost inverse-index formulation was tried and dropped: idx(a) terms re-trigger every
+        index-quantified invariant and give matching loops -- measured 20k instantiations.)"""
+        refs, sets = self.modset(mods, st, env)
+
+        def inmod(a):
+            parts = [z3.And(Z.is_ref(v), Z.addr(v) == a) for v in refs]
+            for (arr, n, lst) in sets:
+                j = z3.Int('j!mod')
+                e = z3.Select(arr, j)
+                parts.append(z3.And(Z.is_ref(lst), z3.Exists([j], z3.And(j >= 0, j < n, Z.is_ref(e), Z.addr(e) == a))))
+            return z3.Or(parts) if parts else z3.BoolVal(False)
+        inmod.facts = []
+        inmod.obligations = []
+        return inmod
+
+    def havoc_heap(self, st, mods, env):
+        """heap after an unknown computation that may write only the objects in `mods` (and allocate):
+        finite modifies sets -> point updates with fresh contents; element sets -> fresh arrays + frame axiom"""
         h = st.heap
+        refs, sets = self.modset(mods, st, env)
+        new_alloc = Z.fresh_int('alloc')
+        facts = [new_alloc >= h.alloc]
+        if not sets:
+            upd = {}
+            hf = Heap.fresh('Hc')
+            isref = {k: self.known(st, Z.is_ref(v)) for k, v in enumerate(refs)}
+            for f in FIELDS:
+                arr = getattr(h, f)
+                for k, v in enumerate(refs):
+                    if f in ('kind', 'klass'):
+                        continue        # objects do not change kind or class
+                    a = Z.addr(v)
+                    upd_arr = z3.Store(arr, a, z3.Select(getattr(hf, f), a))
+                    arr = upd_arr if isref[k] else z3.If(Z.is_ref(v), upd_arr, arr)
+                upd[f] = arr
+            upd['alloc'] = new_alloc
+            return Heap(**upd), facts
         hf = Heap.fresh('Hc')
+        inmod = self.modset_pred(mods, st, env)
+        for ob in inmod.obligations:
+            self.add_vc('callee-pre', 'objects in a modified element set are pairwise distinct', st, ob, clause=str(mods))
+        facts += inmod.facts
         a = z3.Int('a!hv')
-        keep = z3.And(a >= 0, a < h.alloc, z3.Not(inmod(a)))
-        upd = {}
         for f in FIELDS:
-            upd[f] = z3.Lambda([a], z3.If(keep, z3.Select(getattr(h, f), a), z3.Select(getattr(hf, f), a)))
-        upd['alloc'] = hf.alloc
-        h2 = Heap(**upd)
-        return h2, [hf.alloc >= h.alloc]
+            new, oldf = getattr(hf, f), getattr(h, f)
+            keep = z3.And(a >= 0, a < h.alloc, z3.Not(inmod(a))) if f not in ('kind', 'klass') else z3.And(a >= 0, a < h.alloc)
+            facts.append(Z.forall([a], z3.Implies(keep, z3.Select(new, a) == z3.Select(oldf, a)),
+                                   patterns=[z3.Select(new, a)], qid='frame_' + f))
+        upd = {f: getattr(hf, f) for f in FIELDS}
+        upd['alloc'] = new_alloc
+        return Heap(**upd), facts
 
     def apply_contract(self, con, env, st, node, order=None):
         """call by contract: check requires, havoc modifies, assume ensures; fork exsures"""
@@ -794,12 +843,11 @@ class CallsMixin:
         if con.pure:
             h2, facts = st.heap, []
         else:
-            inmod = self.modset_pred(con.modifies, st, env)
-            h2, facts = self.havoc_heap(st, inmod)
+            h2, facts = self.havoc_heap(st, con.modifies, env)
         # 3. result
         if con.fn:
-            args = [env[p] for p in (order or sorted(env)) if p in env and p != 'self' or (p == 'self' and con.fn.endswith('@self'))]
-            f = z3.Function(con.fn.replace('@self', ''), *([Val] * len(args) + [Val]))
+            args = [env[p] for p in (order or sorted(env)) if p in env and p != 'self']
+            f = z3.Function(con.fn, *([Val] * len(args) + [Val]))
             res = f(*args) if args else z3.Const(con.fn, Val)
         else:
             res = Z.fresh_val('ret_' + label.replace('.', '_'))
@@ -829,7 +877,7 @@ class CallsMixin:
 
     def add_vc(self, kind, name, st, goal, clause='', node=None, note=''):
         line = getattr(node, 'lineno', None)
-        self.vcs.append(VC(name=name, kind=kind, pc=list(st.pc) + self.round_facts(), goal=goal, path=self.path_counter,
+        self.vcs.append(VC(name=name, kind=kind, pc=list(st.pc) + self.round_facts() + self.mul_facts(), goal=goal, path=self.path_counter,
                            note=note or (("line %s" % line) if line else ''), clause=clause, state=st))
 
     # ------------------------------------------------------------------ spec builtins (spec mode only)
@@ -852,7 +900,11 @@ class CallsMixin:
     def spec_old(self, node, st):
         if st.old_heap is None:
             raise Unsupported("old() outside postcondition", node)
-        s = st.clone(heap=st.old_heap, env=st.old_env if st.old_env is not None else st.env)
+        env = dict(st.old_env) if st.old_env is not None else dict(st.env)
+        for k, v in st.env.items():
+            if k not in env:
+                env[k] = v          # bound variables of enclosing quantifiers, ghost names
+        s = st.clone(heap=st.old_heap, env=env)
         return self.ev1(node.args[0], s)
 
     def spec_implies(self, node, st):
@@ -905,7 +957,7 @@ class CallsMixin:
             raise Unsupported("quantifier range " + ast.unparse(rng), node)
         body = self.truth(st, self.ev1(lam.body, st.clone(env=env)))
         if is_all:
-            return Z.mk_b(z3.ForAll(bound, z3.Implies(dom, body)))
+            return Z.mk_b(z3.ForAll(bound, z3.Implies(dom, body), qid='spec_%s_%s' % ('_'.join(names), ''.join(ch if ch.isalnum() else '_' for ch in ast.unparse(lam.body)[:50]))))
         return Z.mk_b(z3.Exists(bound, z3.And(dom, body)))
 
     def spec_forall(self, node, st):
@@ -990,6 +1042,11 @@ class CallsMixin:
         ks = [self.nk(self.ev1(a, st)) for a in node.args[1:]]
         k = z3.Const('k!ks', Val)
         return Z.mk_b(z3.ForAll([k], z3.Implies(st.heap.has_key(Z.addr(d), k), z3.Or([k == x for x in ks]))))
+
+    def spec_keys(self, node, st):
+        """keys(d): the key set of d as a spec-level value (only for == comparisons)"""
+        (d,) = self._sargs(node, st)
+        return st.heap.keys(Z.addr(d))
 
     def spec_fresh(self, node, st):
         (v,) = self._sargs(node, st)
